@@ -223,7 +223,13 @@ func runDispatch(c dispCase, seed uint64, st *stats, oracle func(string, ...any)
 	}
 	_ = b.SetSuccessThreshold("t", c.thr)
 	_ = b.SetSuccessThresholdSinks("t", c.thrS)
+	// every other case hands Send a context that carries a cause of its own (WithCancelCause): the error
+	// Send returns wraps the context's ERROR (context.Canceled) all the same
 	ctx, cancel := context.WithCancel(context.Background())
+	if caseSeq++; caseSeq%2 == 0 {
+		cctx, ccancel := context.WithCancelCause(context.Background())
+		ctx, cancel = cctx, func() { ccancel(errors.New("the caller's own cause")) }
+	}
 	defer cancel()
 	h.cancel = cancel
 	if c.cancelAt == -2 {
@@ -526,6 +532,8 @@ func genDispCase(p *prng) dispCase {
 	c.perturb = []int{0, 3, 3, 6}[p.intn(4)]
 	return c
 }
+
+var caseSeq int
 
 func dispatchMain(args []string) {
 	fs := flag.NewFlagSet("dispatch", flag.ExitOnError)
